@@ -810,6 +810,63 @@ func c05Run(r *Run) {
 		}
 		WalkFunc(h, catchFn.Body, &finState{})
 		_ = reassigned
+		// only a thrown value is caught: a catch body runs only where the control has been found to be a
+		// throw (successful assertion of the control to the throw type) — a catch-all clause that also takes
+		// a return, break or continue leaving the try block swallows it
+		{
+			okVars := map[types.Object]bool{}
+			ast.Inspect(catchFn.Body, func(n ast.Node) bool {
+				if as, ok := n.(*ast.AssignStmt); ok && len(as.Lhs) == 2 && len(as.Rhs) == 1 {
+					if ta, ok := ast.Unparen(as.Rhs[0]).(*ast.TypeAssertExpr); ok && ta.Type != nil {
+						if id, ok := ast.Unparen(ta.X).(*ast.Ident); ok && aliases[info.Uses[id]] {
+							if okID, ok := as.Lhs[1].(*ast.Ident); ok {
+								okVars[info.ObjectOf(okID)] = true
+							}
+						}
+					}
+				}
+				return true
+			})
+			type thrState struct{ known bool }
+			var badPos token.Pos
+			runs := 0
+			h2 := &Hooks{Info: info}
+			h2.Copy = func(s State) State { c := *s.(*thrState); return &c }
+			h2.Join = func(a, b State) State { return &thrState{known: a.(*thrState).known && b.(*thrState).known} }
+			h2.Equal = func(a, b State) bool { return a.(*thrState).known == b.(*thrState).known }
+			h2.Cond = func(e ast.Expr, truth bool, st State) State {
+				if id, ok := ast.Unparen(e).(*ast.Ident); ok && truth && okVars[info.Uses[id]] {
+					st.(*thrState).known = true
+				}
+				return st
+			}
+			h2.TypeCase = func(x ast.Expr, bind *ast.Ident, cc *ast.CaseClause, st State) State {
+				if id, ok := ast.Unparen(x).(*ast.Ident); ok && aliases[info.Uses[id]] && len(cc.List) > 0 {
+					st.(*thrState).known = true
+				}
+				return st
+			}
+			h2.Node = func(stm ast.Stmt, st State) {
+				rs, ok := stm.(*ast.RangeStmt)
+				if !ok || rs == catchRange || rs.Pos() < catchRange.Pos() || rs.End() > catchRange.End() {
+					return
+				}
+				if sl, ok := info.TypeOf(rs.X).Underlying().(*types.Slice); ok && isNamed(sl.Elem(), modPath+"/data", "GetValue") {
+					runs++
+					if !st.(*thrState).known && badPos == token.NoPos {
+						badPos = rs.Pos()
+					}
+				}
+			}
+			WalkFunc(h2, catchFn.Body, &thrState{})
+			if runs > 0 && len(okVars) > 0 {
+				if badPos == token.NoPos {
+					r.ok(ck+"#only-throws", catchRange.Pos(), "a catch body runs only where the control has been asserted to be a thrown value")
+				} else {
+					r.bad(ck+"#only-throws", badPos, "a catch body can run for a control that has not been found to be a thrown value: a return, break or continue leaving the try block is swallowed by this clause")
+				}
+			}
+		}
 		if matchedAtHead == token.NoPos {
 			r.ok(ck+"#first-match", catchRange.Pos(), "a matching clause leaves the dispatch loop on every path (no later clause can run)")
 		} else {
